@@ -6,6 +6,7 @@ THEOREMS = [tuple(x) for x in json.load(open(os.path.join(VERIF, "lib", "pins", 
 
 
 def monitor_regen(run, where, inv, meta, hist, ii, rep):
+    S.monitor_resolved_after_regen(run, where, inv)
     phs = inv.phases()
     if not phs:
         return
